@@ -852,6 +852,19 @@ fn gen_posarr(thorough: bool, r: &mut Rng, emit: Emit) {
         let probe = rand_bh(r, 64);
         emit(&format!("pah {} {}", items.join(";"), hexenc(&probe)));
     }
+    // full-length strings beginning and ending with runs of one symbol (see gen_target)
+    for a in 1..=3usize {
+        for b in 1..=3usize {
+            let c = (a * 9 + b) as u8;
+            let mut v: Vec<u8> = vec![c; a];
+            while v.len() < 64 - b { let x = ((v.len() * 5 + 11) % 64) as u8; v.push(if x == c { (x + 1) % 64 } else { x }); }
+            v.extend(vec![c; b]);
+            emit(&format!("pah {} {}", hexenc(&v), hexenc(&v)));
+            emit(&format!("pah {};{} {}", hexenc(&rand_bh(r, 64)), hexenc(&v), hexenc(&v[..60])));
+            emit(&format!("pa ed {} {}", hexenc(&v), hexenc(&v[3..])));
+            emit(&format!("pa cs {} {}", hexenc(&v), hexenc(&v[50..])));
+        }
+    }
     // related histories: each string is a prefix / extension / one-symbol edit / full-length version
     // of the previous one; the probe shares a 7-gram with the first, the previous or the last string
     for _ in 0..(if thorough { 6000 } else { 800 }) {
@@ -911,6 +924,23 @@ fn gen_target(thorough: bool, r: &mut Rng, emit: Emit) {
         };
         let seq: Vec<String> = hs.iter().map(|h| hash_arg(h.0, &h.1, &h.2)).collect();
         emit(&format!("tgt {} {} {}", c, seq.join(";"), hash_arg(probe.0, &probe.1, &probe.2)));
+    }
+    // full-length (64-symbol) block hashes that begin and end with runs of the same symbol (a bit trick
+    // that rotates instead of shifting would join the two runs across the word boundary: round-10
+    // seeded change in is_valid_and_normalized), as block hash 1, as long block hash 2, and as probe
+    for a in 1..=3usize {
+        for b in 1..=3usize {
+            for k in [0u8, 7, 30] {
+                let c = (a * 7 + b) as u8;
+                let mut v: Vec<u8> = vec![c; a];
+                while v.len() < 64 - b { let x = ((v.len() * 5 + 11) % 64) as u8; v.push(if x == c { (x + 1) % 64 } else { x }); }
+                v.extend(vec![c; b]);
+                let other = rand_norm_bh(r, 64);
+                emit(&format!("tgt L {} {}", hash_arg(k, &v, &other), hash_arg(k, &v, &v)));
+                emit(&format!("tgt L {};{} {}", hash_arg(k, &other, &other), hash_arg(k, &other, &v), hash_arg(k.saturating_sub(1), &other, &v)));
+                emit(&format!("tgt S {} {}", hash_arg(k, &v, &fixn(other.clone(), 32)), hash_arg(k, &mutate_bh(r, &v, 64).iter().copied().take(64).collect::<Vec<u8>>(), &[])));
+            }
+        }
     }
     // related histories (see related_bh): both block hashes evolve by prefix / extension / emptying /
     // filling to capacity; the probe is the first, previous or last hash or a light edit of one of them
